@@ -16,7 +16,7 @@ RULE = ('exhaustive: 118 elements x every tabulated isotope x charge -4..+4 x ra
 ASSUMPTIONS = ['CachedMethods compatibility shim', 'embedded IUPAC symbol table cross-checked with RDKit',
                'pack/unpack/matcher clauses observe the .pyx source semantics under pyxsan, not a compiled binary']
 CONFIG = {
-    'quick': {'shards': 16, 'budget_s': 200, 'exhaustive': True,
+    'quick': {'shards': 16, 'budget_s': 300, 'exhaustive': True,
               'exhaustive_subspaces': ['118 elements x tabulated isotopes x charge x radical x H count (pack round trip '
                                        'samples H and radical per isotope/charge in quick; full product in thorough)'],
               'floors': {'elements': 118, 'isotopes': 300, 'pack.roundtrips': 3000, 'matcher.encodings': 1000}},
